@@ -67,6 +67,9 @@ func genLayout(r *Rng, big bool) Layout {
 		}
 		if big {
 			cands = append(cands, 341, 342, 700)
+			if i == 0 {
+				cands = append(cands, 1500)
+			}
 		}
 		n := r.PickInt(cands)
 		if n < minN {
@@ -320,6 +323,19 @@ func (g *LibGen) History(nSteps int) []Op {
 			age := g.r.Intn(g.lay.Ret(k))
 			ops = append(ops, Op{fmt.Sprintf("upd %d %d %s %d", k, g.now-age, genVal(g.r, g.exotic), g.now), sUpd})
 		case c < 14:
+			if g.lay.Ns[0] >= 1200 && g.r.Chance(1, 3) {
+				// one very large batch into one archive (more than a thousand slots in one call),
+				// then the disk before any Sync and a reopen
+				var pts []string
+				st := g.lay.Steps[0]
+				base := g.now - g.now%st
+				for j := 0; j < 1100+g.r.Intn(80); j++ {
+					pts = append(pts, fmt.Sprintf("%d:%s", base-j*st, genVal(g.r, false)))
+				}
+				ops = append(ops, Op{fmt.Sprintf("updmany 0 %d %s", g.now, strings.Join(pts, ",")), sUpd})
+				ops = append(ops, Op{fmt.Sprintf("disk %d", g.lay.HdrSize()), true})
+				break
+			}
 			ops = append(ops, Op{fmt.Sprintf("updmany %d %d %s", g.validID(), g.now, g.genBatch()), sUpd})
 		case c < 16:
 			// clock advance
